@@ -329,6 +329,8 @@ def check_affine(case, out):
         # whatever they remember about the old parametrisation must not survive
         for name, obj, fresh in (("Function", f1, f2), ("Curve", c1, c2)):
             try:
+                obj(lib.conv_knot(us[0], num))  # used through its plain call form before the change
+                obj([lib.conv_knot(us[0], num), lib.conv_knot(us[-1], num)])
                 live = obj.knotvector
                 if case["order"] == "shift-scale":
                     live.shift(a).scale(s)
